@@ -14,6 +14,7 @@ import (
 	"encoding/binary"
 	"io"
 	"net"
+	"runtime"
 	"sync"
 	"time"
 )
@@ -34,6 +35,7 @@ type half struct {
 	cut     bool // interposer cut the direction: later writes are swallowed
 	ip      *interposer
 	total   int64 // bytes ever delivered to the queue
+	limit   int   // >0: Write blocks while this many bytes are queued
 }
 
 func newHalf() *half {
@@ -115,6 +117,10 @@ func NewPipe() (a, b *End) {
 // called before the first Write.
 func (e *End) Interpose(h Hook) { e.wr.ip = &interposer{hook: h} }
 
+// SetWriteLimit bounds the queue of the direction this end writes to: Write
+// then blocks while limit bytes are waiting to be read.  Call before use.
+func (e *End) SetWriteLimit(limit int) { e.wr.limit = limit }
+
 func (e *End) Write(p []byte) (int, error) {
 	h := e.wr
 	h.mu.Lock()
@@ -127,6 +133,12 @@ func (e *End) Write(p []byte) (int, error) {
 	}
 	if h.cut {
 		return len(p), nil
+	}
+	for h.limit > 0 && len(h.buf) >= h.limit && !h.rclosed && !h.wclosed {
+		h.cond.Wait() // bounded transport: block until the reader drains
+	}
+	if h.rclosed || h.wclosed {
+		return 0, io.ErrClosedPipe
 	}
 	if h.ip == nil {
 		h.buf = append(h.buf, p...)
@@ -176,6 +188,9 @@ func (e *End) Read(p []byte) (int, error) {
 	h.buf = h.buf[n:]
 	if len(h.buf) == 0 {
 		h.buf = nil
+	}
+	if h.limit > 0 {
+		h.cond.Broadcast()
 	}
 	return n, nil
 }
@@ -317,4 +332,36 @@ func (f *FaultConn) HandedCount() int {
 	f.mu.Lock()
 	defer f.mu.Unlock()
 	return len(f.handed)
+}
+
+// ---------------------------------------------------------------- slow transport
+
+// SlowConn wraps an End whose Write dawdles: it yields the processor on every
+// call and sleeps a little on some, so that a writer holding no lock between
+// two underlying writes would certainly be overtaken.
+type SlowConn struct {
+	*End
+	mu     sync.Mutex
+	calls  int
+	every  int           // sleep on every every-th call (0 = never)
+	sleep  time.Duration // how long
+	yields int           // Gosched calls per write
+}
+
+func NewSlowConn(e *End, every int, sleep time.Duration, yields int) *SlowConn {
+	return &SlowConn{End: e, every: every, sleep: sleep, yields: yields}
+}
+
+func (s *SlowConn) Write(p []byte) (int, error) {
+	s.mu.Lock()
+	s.calls++
+	nap := s.every > 0 && s.calls%s.every == 0
+	s.mu.Unlock()
+	for i := 0; i < s.yields; i++ {
+		runtime.Gosched()
+	}
+	if nap {
+		time.Sleep(s.sleep)
+	}
+	return s.End.Write(p)
 }
